@@ -113,6 +113,8 @@ structure Ofd where
   pipe : Bool := false
   /-- O_NONBLOCK -/
   nonblock : Bool := false
+  /-- write end of a pipe: the pipe has been filled to capacity (see `fillPipe`) -/
+  full : Bool := false
   deriving DecidableEq, Repr, Inhabited
 
 structure FdEntry where
